@@ -133,22 +133,22 @@ func c04AddExch(c *c04Cfg, shape, tok, n int) {
 	etag := j%2 == 0
 	switch shape {
 	case 0:
-		c.exch = append(c.exch, c04Exch{0, 2, tok, j, 40 + 7*j, n, -1})
+		c.exch = append(c.exch, c04Exch{0, 2, tok, j, 40 + 7*j, n, -1, 0})
 		c.res = append(c.res, c04Res{100 + 30*j, 5 + j, false, 40 + j})
 	case 1:
-		c.exch = append(c.exch, c04Exch{0, 1, tok, j, 0, 0, -1})
+		c.exch = append(c.exch, c04Exch{0, 1, tok, j, 0, 0, -1, 0})
 		c.res = append(c.res, c04Res{100 + 30*j, n, etag, 40 + j})
 	case 2:
-		c.exch = append(c.exch, c04Exch{0, 3, tok, j, 40 + 7*j, n, -1})
+		c.exch = append(c.exch, c04Exch{0, 3, tok, j, 40 + 7*j, n, -1, 0})
 		c.res = append(c.res, c04Res{100 + 30*j, n, etag, 40 + j})
 	case 3:
-		c.exch = append(c.exch, c04Exch{1, 2, tok, j, 40 + 7*j, n, -1})
+		c.exch = append(c.exch, c04Exch{1, 2, tok, j, 40 + 7*j, n, -1, 0})
 		c.res = append(c.res, c04Res{100 + 30*j, 3 + j, false, 40 + j})
 	case 4:
-		c.exch = append(c.exch, c04Exch{0, 2, tok, j, 40 + 7*j, 5 + j, -1})
+		c.exch = append(c.exch, c04Exch{0, 2, tok, j, 40 + 7*j, 5 + j, -1, 0})
 		c.res = append(c.res, c04Res{100 + 30*j, n, etag, 40 + j})
 	default:
-		c.exch = append(c.exch, c04Exch{2, 69, tok, j, 0, 0, 3 + j})
+		c.exch = append(c.exch, c04Exch{2, 69, tok, j, 0, 0, 3 + j, 0})
 		c.res = append(c.res, c04Res{100 + 30*j, n, true, 40 + j})
 		c.outside = append(c.outside, [2]int{tok, j})
 	}
